@@ -32,7 +32,7 @@ fn meta() -> Meta {
     Meta {
         id: "C19",
         level: "fault_enumeration",
-        rule: "for every configuration (naming x cleanup x write mode x 0/1 earlier run) the trace of file-system points of the history W W W5 W W R W F Reopen W5 W W is recorded fault-free; then every (site, occurrence) x burst in 1..3 is failed plus every pair of two single faults at different sites (quick: for the direct-mode configurations without earlier run; thorough: all); distinct_nontrivial = distinct (configuration, site, occurrence, burst) whose fault hits a rotation, cleanup, compression or initialisation step (not a plain write); plus 12 background-cleanup configurations under the scheduler's canonical schedule, real ENOSPC on the compression target (symlink to /dev/full planted at gz_create), a duplicate stream that is a full device for three records, and the current file on a full device (every failure reported, the empty file is not closed by the size criterion); the log directory removed for three records and re-created (no panic, reported, logging resumes); a rename that really fails because the target name is a directory; a start whose rename fails for real (name too long); buffered / asynchronous mode with the current file on a full device (rotation, shutdown, reopen_output, reset_flw; recovery after the device problem is over); the size criterion holds except for operations whose rotation attempt hit a fault; the failing-duplicate-stream scenario has a second writer (log_to_file_and_writer) whose file must hold every record; no file descriptor left (soft RLIMIT_NOFILE = 0: every open and every directory listing really fails with EMFILE, rename / remove work) for three rotating records between three before and three after, naming x {direct, buffered} x clock step {0, 1 s} x cleanup {none, KeepLogFiles}: no panic, nothing logged before is destroyed, losses reported, the records after are written",
+        rule: "for every configuration (naming x cleanup x write mode x 0/1 earlier run) the trace of file-system points of the history W W W5 W W R W F Reopen W5 W W is recorded fault-free; then every (site, occurrence) x burst in 1..3 is failed plus every pair of two single faults at different sites (quick: for the direct-mode configurations without earlier run; thorough: all); distinct_nontrivial = distinct (configuration, site, occurrence, burst) whose fault hits a rotation, cleanup, compression or initialisation step (not a plain write); plus 12 background-cleanup configurations under the scheduler's canonical schedule, real ENOSPC on the compression target (symlink to /dev/full planted at gz_create), a duplicate stream that is a full device for three records, and the current file on a full device (every failure reported, the empty file is not closed by the size criterion); the log directory removed for three records and re-created (no panic, reported, logging resumes); a rename that really fails because the target name is a directory; a start whose rename fails for real (name too long); buffered / asynchronous mode with the current file on a full device (rotation, shutdown, reopen_output, reset_flw; recovery after the device problem is over); the size criterion holds except for operations whose rotation attempt hit a fault; the failing-duplicate-stream scenario has a second writer (log_to_file_and_writer) whose file must hold every record; no file descriptor left (soft RLIMIT_NOFILE = 0: every open and every directory listing really fails with EMFILE, rename / remove work) for three rotating records between three before and three after, naming x {direct, buffered} x clock step {0, 1 s} x cleanup {none, KeepLogFiles}: no panic, nothing logged before is destroyed, losses reported, the records after are written; a fourth burst length 'until the faults are cleared'; nested records (a message that logs while it is formatted) on a full device: both failures of a call reported; create_symlink with its path taken by a non-empty directory (12 cases): every record written, one file per record, the problem reported",
         assumptions: vec![
             "a failing file-system call has no effect and returns an io::Error of kind PermissionDenied (never NotFound, which two rename sites treat as benign)".into(),
             "faults are injected through the guarded fs_point hook directly before the call (the sandbox runs as root, permission bits do not bite)".into(),
@@ -109,7 +109,7 @@ fn recovery() -> Vec<HOp> {
 }
 
 fn units(_tier: &str) -> usize {
-    grid().len() + dup_cases().len() + NG.len() + dir_cases().len() + RENAME_DIR_UNITS + fd_cases().len()
+    grid().len() + dup_cases().len() + NG.len() + dir_cases().len() + RENAME_DIR_UNITS + fd_cases().len() + 1 + link_cases().len()
 }
 const RENAME_DIR_UNITS: usize = 6 + 2 * (NG.len() + 3) + 1;
 
@@ -245,6 +245,149 @@ fn run_fd_exhausted(naming: NamingK, mode: ModeK, step: i64, clean: CleanK) -> R
         }
     }
     Ok(errs_during.min(9) * 10 + missing_during)
+}
+
+
+// ---------------------------------------------------------------- nested records on a full device; a blocked symlink path
+
+/// No rotation, direct mode, the log file is a symlink to /dev/full; four log calls whose
+/// message logs another record while it is formatted (two records per call, both writes fail
+/// with ENOSPC): each of the two failures is reported during the call.
+fn run_nested_full() -> Result<usize, Fail> {
+    let env = Env::new("c19n");
+    env.enter();
+    let cfg = Cfg::norot();
+    let planted: std::sync::Arc<std::sync::Mutex<Option<std::path::PathBuf>>> = std::sync::Arc::new(std::sync::Mutex::new(None));
+    {
+        let planted = std::sync::Arc::clone(&planted);
+        let mut g = env.ctx.fs.lock().unwrap();
+        g.enabled = true;
+        g.on_hit = Some(Box::new(move |site, _occ, _idx, path| {
+            let mut p = planted.lock().unwrap();
+            if site == "open" && p.is_none() {
+                std::os::unix::fs::symlink("/dev/full", path).ok();
+                *p = Some(path.to_path_buf());
+            }
+        }));
+    }
+    let (logger, handle) = cfg.build_logger(&env.dir, &env.err).map_err(|e| Fail {
+        clause: "run-error",
+        detail: format!("build: {e}"),
+    })?;
+    let mut reported = 0;
+    for i in 0..4 {
+        let before = env.errlines().len();
+        crate::lg::log_nested(&*logger, &format!("9.{i}:inner"), &format!("0.{i}:outer"));
+        let after = env.errlines().len();
+        if after - before < 2 {
+            return Err(Fail {
+                clause: "not-reported",
+                detail: format!("log call {i} produced two records (the message logs another record while it is formatted); both writes went to a full device (ENOSPC) but only {} line(s) were written to the error channel meanwhile: {:?}", after - before, &env.errlines()[before..]),
+            });
+        }
+        reported += after - before;
+    }
+    handle.shutdown();
+    drop(logger);
+    env.leave();
+    Ok(reported)
+}
+
+fn link_cases() -> Vec<(NamingK, ModeK)> {
+    let mut v = Vec::new();
+    for n in NG {
+        for m in [ModeK::Direct, ModeK::BufDont(16)] {
+            v.push((n, m));
+        }
+    }
+    v
+}
+
+/// create_symlink is configured, but its path is taken by a non-empty directory: removing the old
+/// link and creating the new one fail at every start and rotation. Five rotating records: all of
+/// them are in the files, in order, one file per record, and the problem is reported.
+fn run_link_blocked(naming: NamingK, mode: ModeK) -> Result<usize, Fail> {
+    let env = Env::new("c19l");
+    env.enter();
+    let mut cfg = Cfg::rot(CritK::Size(LIMIT), naming, CleanK::Never);
+    cfg.mode = mode;
+    cfg.symlink = true;
+    let link = Cfg::symlink_path(&env.dir);
+    std::fs::create_dir_all(&link).ok();
+    std::fs::write(link.join("occupied"), b"x").ok();
+    let mut h = Hist::new(&env, cfg.clone());
+    for _ in 0..5 {
+        env.clock.advance_secs(1);
+        if let Err(crate::fl::StepErr::Build(e)) = h.apply(HOp::W(20)) {
+            return Err(Fail {
+                clause: "run-error",
+                detail: format!("build: {e}"),
+            });
+        }
+    }
+    let reported = env.errlines().len();
+    let want = h.stream();
+    h.stop();
+    drop(h);
+    env.leave();
+    let scan = family::scan(&env.dir, &cfg.parts, None, cfg.naming(), &[]);
+    let got = scan.stream(&env.dir).map_err(|e| Fail { clause: "run-error", detail: e })?;
+    if got != want {
+        return Err(Fail {
+            clause: "unrelated-record-lost",
+            detail: format!("only the symlink operations fail (the link path is a non-empty directory); every record must be written: files {:?} hold {:?}, logged {:?}; error channel {:?}", scan.names(), String::from_utf8_lossy(&got), String::from_utf8_lossy(&want), env.errlines()),
+        });
+    }
+    if scan.members.len() != 5 {
+        return Err(Fail {
+            clause: "partition-disturbed",
+            detail: format!("five records above the size limit make five files; found {:?}", scan.names()),
+        });
+    }
+    if reported == 0 {
+        return Err(Fail {
+            clause: "not-reported",
+            detail: "the symlink could never be created (its path is a non-empty directory) but nothing was written to the error channel".into(),
+        });
+    }
+    Ok(reported)
+}
+
+fn run_extra_unit(idx: usize, unit: usize, out: &mut Out) {
+    let case = json!({"unit": unit, "extra": idx});
+    let (cause, descr): (String, String) = if idx == 0 {
+        ("nested-records-on-full-device/direct".into(), "no rotation, direct mode, log file is a symlink to /dev/full, four log calls with a nested record each".into())
+    } else {
+        let (n, m) = link_cases()[idx - 1];
+        (format!("symlink-path-blocked/{}/{}", n.short(), super::c08::mode_class(m)), format!("naming {n:?}, {m:?}, create_symlink with the link path taken by a non-empty directory, five rotating records"))
+    };
+    let mut vs = Vec::new();
+    for _ in 0..2 {
+        out.evaluations += 1;
+        out.transitions += 5;
+        let r = if idx == 0 {
+            run_isolated(Duration::from_secs(30), run_nested_full)
+        } else {
+            let (n, m) = link_cases()[idx - 1];
+            run_isolated(Duration::from_secs(30), move || run_link_blocked(n, m))
+        };
+        match r {
+            Ran::Done(Ok(n)) => {
+                out.outcome(format!("{}: error lines={}", if idx == 0 { "nested on full device" } else { "symlink path blocked" }, n.min(9)));
+                break;
+            }
+            Ran::Done(Err(f)) => vs.push(Violation::new(f.clause, cause.clone(), format!("{descr}\n  {}", f.detail), case.clone())),
+            Ran::Panicked(m) => vs.push(Violation::new("panic", cause.clone(), format!("{descr}\n  {m}"), case.clone())),
+            Ran::Hung => vs.push(Violation::new("hang", cause.clone(), descr.clone(), case.clone())),
+        }
+    }
+    out.state(&(unit, "extra"));
+    out.nontrivial(&(unit, "extra"));
+    if vs.len() == 2 && vs[0].key() == vs[1].key() {
+        out.violation(vs.remove(0));
+    } else if !vs.is_empty() {
+        out.violation(Violation::new("nondeterministic", "replay-diverged", vs[0].detail.clone(), case));
+    }
 }
 
 fn run_fd_unit(idx: usize, unit: usize, out: &mut Out) {
@@ -1046,7 +1189,7 @@ fn run_dup_unit(idx: usize, unit: usize, out: &mut Out) {
     }
 }
 fn bounds(tier: &str) -> Value {
-    json!({"configurations": grid().len(), "history": format!("{:?}", word()), "bursts": [1, 2, 3], "second_order": tier != "quick", "failing_duplicate_stream_cases": dup_cases().len(), "no_file_descriptor_cases": fd_cases().len()})
+    json!({"configurations": grid().len(), "history": format!("{:?}", word()), "bursts": [1, 2, 3, "until cleared"], "second_order": tier != "quick", "failing_duplicate_stream_cases": dup_cases().len(), "no_file_descriptor_cases": fd_cases().len()})
 }
 
 #[derive(Debug)]
@@ -1421,6 +1564,10 @@ fn judge_df(c: &Case, faults: &[FaultSpec], dev_full: Option<String>, unit: usiz
 
 fn run_unit(tier: &str, unit: usize, out: &mut Out) {
     let g = grid();
+    if unit >= g.len() + dup_cases().len() + NG.len() + dir_cases().len() + RENAME_DIR_UNITS + fd_cases().len() {
+        run_extra_unit(unit - g.len() - dup_cases().len() - NG.len() - dir_cases().len() - RENAME_DIR_UNITS - fd_cases().len(), unit, out);
+        return;
+    }
     if unit >= g.len() + dup_cases().len() + NG.len() + dir_cases().len() + RENAME_DIR_UNITS {
         run_fd_unit(unit - g.len() - dup_cases().len() - NG.len() - dir_cases().len() - RENAME_DIR_UNITS, unit, out);
         return;
@@ -1481,7 +1628,8 @@ fn run_unit(tier: &str, unit: usize, out: &mut Out) {
     out.count("trace_points", o.trace.len() as u64);
     let mut placements: Vec<Vec<FaultSpec>> = Vec::new();
     for (s, occ) in &pairs {
-        for burst in 1..=3 {
+        // (1000: the call keeps failing until the faults are cleared before the recovery records)
+        for burst in [1, 2, 3, 1000] {
             placements.push(vec![FaultSpec {
                 site: (*s).to_string(),
                 first_occ: *occ,
@@ -1536,6 +1684,12 @@ fn run_unit(tier: &str, unit: usize, out: &mut Out) {
 fn replay(case: &Value) -> Vec<Violation> {
     let g = grid();
     let unit = case["unit"].as_u64().unwrap_or(0) as usize;
+    if let Some(idx) = case["extra"].as_u64() {
+        let mut out = Out::default();
+        println!("replay C19: extra scenario {idx} (0 = nested records on a full device, 1.. = symlink path blocked {:?})", link_cases().get((idx as usize).wrapping_sub(1)));
+        run_extra_unit(idx as usize, unit, &mut out);
+        return out.violations;
+    }
     if let Some(idx) = case["fd_exhausted"].as_u64() {
         let mut out = Out::default();
         println!("replay C19: no file descriptor available, case {:?}", fd_cases().get(idx as usize));
